@@ -806,6 +806,7 @@ def check_model(ctx, h, stream, res, m):
     vs = ctx.cov.setdefault("model_verdicts", {"same/same": 0, "differ/differ": 0, "model-differ/impl-same": 0, "model-same/impl-differ": 0})
     if impl_bad and pred == "same":
         vs["model-same/impl-differ"] += 1
+        ctx.log("model predicts independence, implementation differs:", h, "\n   req:", m["reqline"][-700:], "\n   model:", parts[-1])
         ctx.broken_tie("correspondence:verdict", "the implementation's probe depends on the history but the model predicts independence: " + h[:300])
     elif impl_bad:
         vs["differ/differ"] += 1
